@@ -371,6 +371,13 @@ impl Lock {
         };
         // under Miri the 2 x 2 MiB tagging loops would dominate the run: keep memory zero-filled
         let pass = if cfg!(miri) { None } else { pass };
+        // the mirror starts from whatever a fresh machine holds (its initial memory contents are not
+        // pinned by any property); the I/O blocks always, the memories unless they are tagged below
+        for ri in 0..5 {
+            let src = real_region(&l.cpu, ri).to_vec();
+            let m = src.len().min(l.mem.r[ri].len());
+            l.mem.r[ri][..m].copy_from_slice(&src[..m]);
+        }
         if let Some(p) = pass {
             for (ri, (lo, _hi, name)) in REGIONS.iter().enumerate() {
                 if name.starts_with("io") {
